@@ -28,6 +28,10 @@ A *unit template* (/verif/units/<name>.u.c) is C text with directives:
       the unit supplies that type)
      constref-byvalue   (`const T& x` parameters of scalar type are passed by value; the body must not take &x)
      sub RE => REPL | sub* RE => REPL | drop-loop-contract-ok
+     streamops VAR [PUT GET]   every statement `VAR << e1 << e2 ...;` / `VAR >> l1 >> l2 ...;` (C++ stream operator chains on the
+               object VAR, e.g. an XSerializeEngine&) becomes `{ PUT(VAR, e1); PUT(VAR, e2); }` / `{ GET(VAR, l1); GET(VAR, l2); }`
+               (default names ENG_PUT / ENG_GET, supplied by the unit); operands are kept verbatim (casts included); no
+               occurrence is only noted (a dropped field is judged by the harness)
      contract / loop K  blocks (lines up to the next key)
   @*/
 
@@ -166,6 +170,26 @@ def find_function(src, qual, pick=1, params_sub=None, inclass=False):
         k = pc + 1
         tail = re.match(r'\s*(const)?\s*(XERCES_NOEXCEPT|noexcept)?\s*', src[k:])
         k2 = k + tail.end()
+        # R20 (additive): a CONSTRUCTOR definition `C::C(params) : Base(args), fM(e) { body }`: the member-initialiser list
+        # becomes leading statements of the body, in source order (`fM(e)` -> `fM = (e);`, `fM()` -> `fM = 0;`, a base-class
+        # initialiser stays a call `Base(args);` for the unit to rename); the function is emitted as `void C_C(params)`
+        qparts = qual.split('::')
+        is_ctor = len(qparts) >= 2 and qparts[-1] == qparts[-2]
+        ctor_init = None
+        if is_ctor and k2 < len(src) and src[k2] == ':' and src[k2:k2 + 2] != '::':
+            j = k2 + 1
+            d = 0
+            while j < len(src) and not (src[j] == '{' and d == 0):
+                if src[j] == '(':
+                    d += 1
+                elif src[j] == ')':
+                    d -= 1
+                elif src[j] == ';':
+                    break
+                j += 1
+            if j < len(src) and src[j] == '{':
+                ctor_init = src[k2 + 1:j]
+                k2 = j
         if k2 >= len(src) or src[k2] != '{':
             continue
         # return type = text back to previous ';', '}', '{' or preprocessor line / access label
@@ -180,12 +204,27 @@ def find_function(src, qual, pick=1, params_sub=None, inclass=False):
         ret = ' '.join(pre.split())
         if not ret and '~' in qual:
             ret = 'void'   # destructor definition
+        if is_ctor and ret in ('', 'inline', 'explicit', 'inline explicit'):
+            ret = 'void'   # R20: constructor definition
         if not ret or ret.endswith(('=', ',', '(', 'return', '&&', '||', '!')):
             continue  # a call inside an expression, not a definition
         if params_sub is not None and params_sub not in ' '.join(params.split()):
             continue
         be = match_close(src, k2, '{', '}')
-        found.append((ret, params, src[k2:be + 1], k2, tail.group(1) is not None))
+        fbody = src[k2:be + 1]
+        if ctor_init is not None:
+            stmts = []
+            for it in split_top(ctor_init):
+                mi = re.match(r'^\s*([A-Za-z_]\w*)\s*\((.*)\)\s*$', it, re.S)
+                if not mi:
+                    raise ExtractionError('%s: member initialiser %r not in subset' % (qual, ' '.join(it.split())))
+                nm, arg = mi.group(1), ' '.join(mi.group(2).split())
+                if re.match(r'^f[A-Z]', nm):
+                    stmts.append('%s = %s;' % (nm, '(' + arg + ')' if arg else '0'))
+                else:
+                    stmts.append('%s(%s);' % (nm, arg))
+            fbody = '{ ' + ' '.join(stmts) + fbody[1:]      # no newline added: #line mapping of the body stays exact
+        found.append((ret, params, fbody, k2, tail.group(1) is not None))
     if len(found) < pick:
         raise ExtractionError('definition %s (pick %d, params %r) not found; %d candidates'
                               % (qual, pick, params_sub, len(found)))
@@ -506,6 +545,78 @@ def rw_methods(body, methods, cnt):
             cnt.hit('R9_method_rule_idle:%s' % a)   # see rw_calls
             continue
         cnt.hit('R9_method', n)
+    return body
+
+
+def rw_streamops(body, var, put, get, cnt, cname):
+    """R19: C++ stream-operator chains on one object, statement level:
+         VAR << e1 << e2;   ->  { PUT(VAR, e1); PUT(VAR, e2); }
+         VAR >> l1 >> l2;   ->  { GET(VAR, l1); GET(VAR, l2); }
+    operands are split at `<<` / `>>` outside parentheses/brackets and kept verbatim.  Anything else (the chain used as
+    an expression, both directions in one statement) is outside the subset."""
+    pat = re.compile(r'(?<![\w\.>])%s\s*(<<|>>)' % re.escape(var))
+    pos = 0
+    n = 0
+    while True:
+        m = pat.search(body, pos)
+        if not m:
+            break
+        pre = body[:m.start()].rstrip()
+        if pre and pre[-1] not in ';{})' and not re.search(r'(?<![\w])else$', pre):
+            raise ExtractionError('%s: streamops: `%s %s` is not at the start of a statement: %r'
+                                  % (cname, var, m.group(1), body[max(0, m.start() - 40):m.end() + 20]))
+        op = m.group(1)
+        # scan to the terminating ';' at depth 0, splitting at top-level << / >>
+        j = m.end()
+        d = 0
+        operands = []
+        cur = []
+        nbody = len(body)
+        while True:
+            if j >= nbody:
+                raise ExtractionError('%s: streamops: unterminated statement' % cname)
+            c = body[j]
+            if c in '"\'':
+                q = c
+                k = j + 1
+                while body[k] != q:
+                    if body[k] == '\\':
+                        k += 1
+                    k += 1
+                cur.append(body[j:k + 1])
+                j = k + 1
+                continue
+            if c in '([':
+                d += 1
+            elif c in ')]':
+                d -= 1
+            elif c in '{}':
+                raise ExtractionError('%s: streamops: brace inside a stream statement' % cname)
+            elif d == 0 and c == ';':
+                break
+            elif d == 0 and body.startswith('<<', j) or d == 0 and body.startswith('>>', j) and body[j - 1] != '-':
+                if body[j:j + 2] != op:
+                    raise ExtractionError('%s: streamops: << and >> mixed in one statement' % cname)
+                operands.append(''.join(cur))
+                cur = []
+                j += 2
+                continue
+            cur.append(c)
+            j += 1
+        operands.append(''.join(cur))
+        ops = [' '.join(o.split()) for o in operands]
+        if any(not o for o in ops):
+            raise ExtractionError('%s: streamops: empty operand in %r' % (cname, body[m.start():j + 1]))
+        fnm = put if op == '<<' else get
+        new = '{ ' + ' '.join('%s(%s, %s);' % (fnm, var, o) for o in ops) + ' }'
+        new += '\n' * body.count('\n', m.start(), j + 1)     # keep the line structure
+        body = body[:m.start()] + new + body[j + 1:]
+        pos = m.start() + len(new)
+        n += len(ops)
+    if n == 0:
+        cnt.hit('R19_streamops_idle:%s' % var)
+    else:
+        cnt.hit('R19_streamops', n)
     return body
 
 
@@ -1000,6 +1111,11 @@ def parse_extract_block(text):
             spec['template_ok'] = True
         elif s == 'retref':
             spec['retref'] = True
+        elif s.startswith('streamops '):
+            w = s.split()[1:]
+            if len(w) not in (1, 3):
+                raise ExtractionError('streamops: need VAR or VAR PUT GET')
+            spec.setdefault('streamops', []).append((w[0], w[1] if len(w) == 3 else 'ENG_PUT', w[2] if len(w) == 3 else 'ENG_GET'))
         elif s.startswith('call* '):
             a, b = s[6:].split('=>')
             spec['calls'].append((a.strip(), b.strip(), True))
@@ -1035,7 +1151,15 @@ def do_extract(spec, cnt, exc_types, info):
         # first match of START and the end of the first following match of END, verbatim; the signature (its free
         # variables) is given by `sig`
         ms = re.search(spec['fragment'][0], body)
-        me = re.search(spec['fragment'][1], body[ms.end():]) if ms else None
+        if ms and spec['fragment'][1] == '@balanced':
+            # END = the brace that closes the first brace opened at/after START (a whole loop or block, whatever it contains)
+            ob = body.find('{', ms.start())
+            if ob < 0:
+                raise ExtractionError('%s: fragment @balanced: no opening brace after the start marker' % cname)
+            cb = match_close(body, ob, '{', '}')
+            me = re.compile(r'(?s).*').match(body[ms.end():cb + 1]) if cb > 0 else None
+        else:
+            me = re.search(spec['fragment'][1], body[ms.end():]) if ms else None
         if not ms or not me:
             raise ExtractionError('%s: fragment markers not found' % cname)
         frag = body[ms.start():ms.end() + me.end()]
@@ -1120,6 +1244,8 @@ def do_extract(spec, cnt, exc_types, info):
         if n == 0 and not opt:
             raise ExtractionError('%s: sub rule %r did not fire' % (cname, a))
         cnt.hit('sub_rule', n)
+    for so_var, so_put, so_get in spec.get('streamops', []):
+        body = rw_streamops(body, so_var, so_put, so_get, cnt, cname)
     if spec.get('retref') and not spec['decl_only']:
         body, nrr = re.subn(r'\breturn\b\s*([^;\s][^;]*);', r'return &(\1);', body)
         if nrr == 0:
